@@ -62,6 +62,10 @@ def gen_case(ctx, k):
         kind = "grid"
     elif cls in (3, 10):
         kind, option = "grid", "gillespie"
+    elif cls == 4:
+        kind, option = "grid", "tauleap"
+    elif cls in (5, 11):
+        kind = "graph"
     space, info = stoch_gen.rand_space(rng, kind=kind, nenv=nenv, max_cells=6)
     net = stoch_gen.rand_network(rng, nenv=nenv, max_order=3)
     n = info["n"]
@@ -96,7 +100,37 @@ def gen_case(ctx, k):
         case["space"] = sp
         case["state"] = [float(rng.choice([0, 1, 2, 3, 5])) for _ in range(ns * w * h * d)]
         case["cls"] = "grid-mixed-boundaries"
-    if rng.random() < 0.45:
+    if cls == 4:
+        # tau-leap on a grid, a chemostat flag that is an int other than 1 (documented: any int / bool) on a reacting species
+        labs_ = LAB(case)
+        nsp = len(labs_)
+        nn = len(case["state"]) // nsp
+        s = rng.randrange(nsp)
+        other = labs_[(s + 1) % nsp] if nsp > 1 else ""
+        case["net"]["reactions"] = [{"eq": "%s -> %s" % (labs_[s], other), "k+": 1.0, "k-": 0.5 if other else 0}]
+        case["state"] = [float(rng.choice([3, 5, 8])) for _ in range(nsp * nn)]
+        flag = rng.choice([2, 5, 5, 7])
+        cells = [i for i in range(nn) if rng.random() < 0.6] or [0]
+        if rng.random() < 0.5:
+            chem = [0] * (nsp * nn)
+            for i in cells:
+                chem[s * nn + i] = flag
+            case["chem"] = chem
+        else:
+            case["set_chem"] = [[labs_[s], i, flag] for i in cells]
+        case["dt"] = 1 / 32
+        case["max_iter"] = ctx.n(16, 100)
+        case["cls"] = "tauleap-grid-flag-not-1"
+    if cls in (5, 11):
+        # graph space, script quantity unit other than molecule, reaction directions of order 0, 2 and 3
+        labs_ = LAB(case)
+        a = labs_[0]
+        b = labs_[-1]
+        case["net"]["reactions"] = [{"eq": "2 %s -> %s" % (a, b), "k+": 0.5, "k-": 0.25},
+                                    {"eq": " -> %s" % a, "k+": 1.0, "k-": 0.0 if rng.random() < 0.5 else 0.125}][:rng.randint(1, 2)]
+        case["units"] = {"time": rng.choice(["s", "ms", "min"]), "quantity": rng.choice(["nmol", "mol", "fmol"])}
+        case["cls"] = "graph-nonmolecule-units-order-0-2"
+    elif rng.random() < 0.45 and cls != 4:
         # script units system other than the default: the engine works in the script's time unit (and in molecules)
         case["units"] = {"time": rng.choice(["ms", "min", "s"]), "quantity": rng.choice(["molecule", "molecule", "nmol", "fmol"])}
     if cls in (3, 10) and case["kind"] == "grid" and option == "gillespie":
@@ -120,7 +154,7 @@ def gen_case(ctx, k):
         case["same_object"] = rng.random() < 0.5
         case["cls"] = "history-same-shape-other-boundaries"
         case.pop("chem", None)
-    if rng.random() < 0.4 and not case.get("before"):
+    if rng.random() < 0.4 and not case.get("before") and cls != 4:
         # explicit chemostat map: a species chemostated in some cells only (the flag masks the change, not the propensity)
         nn = len(case["state"]) // len(case["net"]["species"])
         nsp = len(case["net"]["species"])
@@ -142,6 +176,10 @@ def gen_case(ctx, k):
             case["net"]["reactions"] = list(case["net"]["reactions"])[:2] + [
                 {"eq": "%s -> %s" % (labs2[s], other), "k+": 1.0, "k-": 0.5}]
     return case
+
+
+def LAB(case):
+    return [sp_["label"] for sp_ in case["net"]["species"]]
 
 
 def small(case):
